@@ -12,6 +12,9 @@ from concurrent.futures import ThreadPoolExecutor
 from pathlib import Path
 
 VERIF = Path(__file__).resolve().parents[2]
+import sys as _sys
+if hasattr(_sys, "set_int_max_str_digits"):
+    _sys.set_int_max_str_digits(0)
 REPO = Path(os.environ.get("HDC_REPO", "/repo"))
 COQ = VERIF / "coq"
 GEN = COQ / "gen"
@@ -226,6 +229,18 @@ def load_findings(pid):
 
 # ------------------------------------------------------------------ context
 
+# evidence 'level' = the category claimed in MANIFEST.json (tools/manifest.py)
+def _levels():
+    try:
+        m = json.loads((VERIF / "MANIFEST.json").read_text())
+        return {c["property_id"]: c["level_claimed"]["category"] for c in m.get("checks", [])}
+    except Exception:  # noqa
+        return {}
+
+
+LEVELS = _levels()
+
+
 class Ctx:
     def __init__(self, pid, tier, seed):
         self.pid, self.tier, self.seed = pid, tier, seed
@@ -235,7 +250,7 @@ class Ctx:
         self.cov = dict(evaluations=0, distinct_nontrivial=0, samples=[], obligations=0, discharged=0,
                         checker_cmd="", trusted_base=[], rule="")
         self.assumptions = []
-        self.level = "proof"
+        self.level = LEVELS.get(pid, "proof")
         self.notes = {}
 
     @property
